@@ -395,4 +395,74 @@ class C19(VectorProperty):
         return {"check": "C19", "input": {"version": ver, "vector": vector, "history": hist}}
 
 
-PROPERTIES = {p.id: p() for p in [C01, C03, C04, C05, C07, C08, C09, C10, C11, C12, C15, C18, C19]}
+V4_SCORING = [("cvss4", "CVSS4." + n) for n in (
+    "m", "macroVector", "extract_value_metric", "add_missing_optional", "compute_base_score",
+    "compute_severity", "scores")]
+
+
+def v4_vector_from_model(model, prefix="o"):
+    from spec import v4 as S4
+
+    if not model:
+        return None
+    fields = []
+    for m in S4.ORDER:
+        present = True if m in S4.BASE else bool(_mval(model, "%s.p_%s" % (prefix, m)))
+        v = _mval(model, "%s.v_%s" % (prefix, m))
+        if present and v in S4.VALUES[m]:
+            fields.append("%s:%s" % (m, v))
+        elif m in S4.BASE:
+            return None
+    return "CVSS:4.0/" + "/".join(fields)
+
+
+def v4_random(rng, n, p=0.4):
+    from spec import v4 as S4
+
+    out = []
+    for _ in range(n):
+        fs = ["%s:%s" % (m, rng.choice(S4.VALUES[m])) for m in S4.BASE]
+        for m in S4.THREAT + S4.ENVIRONMENTAL + S4.SUPPLEMENTAL:
+            if rng.random() < p:
+                fs.append("%s:%s" % (m, rng.choice(S4.VALUES[m])))
+        out.append("CVSS:4.0/" + "/".join(fs))
+    return out
+
+
+def v4_neighbourhood(vector, rng, n=1500):
+    from spec import v4 as S4
+
+    parts = vector.split("/")
+    opt = [p for p in parts[1:] if p.split(":")[0] not in S4.BASE]
+    out = []
+    for _ in range(n):
+        base = ["%s:%s" % (m, rng.choice(S4.VALUES[m])) for m in S4.BASE]
+        out.append("CVSS:4.0/" + "/".join(base + opt))
+    return out
+
+
+class C02(Property):
+    id = "C02"
+    trusted = ("A0", "A2", "A3", "A7", "FD")
+    technique = "contracts on cvss4.py scoring functions; one path per macrovector x accepted highest-severity vector; host-float leaves against exact rational specification"
+
+    def jobs(self, tier):
+        return contract_jobs("contracts.cvss4", V4_SCORING)
+
+    def concretize(self, o):
+        v = v4_vector_from_model(o.get("model") or {})
+        return [{"check": "C02", "input": {"vector": v}}] if v else []
+
+    def widen(self, o, tier):
+        rng = random.Random(1)
+        v = v4_vector_from_model(o.get("model") or {})
+        vs = (v4_neighbourhood(v, rng) if v else []) + v4_random(rng, 6000)
+        return [{"check": "C02", "input": {"vector": x}} for x in vs]
+
+    def bounded(self, tier, seed):
+        rng = random.Random(seed)
+        vs = v4_random(rng, 30000 if tier == "quick" else 300000)
+        return [{"check": "C02", "input": {"vector": x}} for x in vs], "%d random v4 vectors" % len(vs)
+
+
+PROPERTIES = {p.id: p() for p in [C01, C02, C03, C04, C05, C07, C08, C09, C10, C11, C12, C15, C18, C19]}
